@@ -170,16 +170,23 @@ impl SchemaConverter {
     /// Emit `---@alias Name "v1" | "v2" | ...` from a simple `enum` array.
     fn emit_enum_alias(&self, emitter: &mut EmmyLuaEmitter, name: &str, values: &[Value]) {
         emitter.write_alias_header(name);
+        let mut has_variant = false;
         for val in values {
             if let Some(s) = val.as_str() {
                 emitter.write_alias_variant(s, None);
+                has_variant = true;
             }
+        }
+        if !has_variant {
+            // No string values: an alias needs at least one variant to be valid.
+            emitter.write_alias_type_variant("any", None);
         }
     }
 
     /// Emit `---@alias Name` from `oneOf` with `const` values.
     fn emit_one_of_alias(&self, emitter: &mut EmmyLuaEmitter, name: &str, one_of: &[Value]) {
         emitter.write_alias_header(name);
+        let mut has_variant = false;
         for item in one_of {
             let const_val = item.get("const").and_then(|v| v.as_str()).or_else(|| {
                 item.get("enum")
@@ -190,7 +197,11 @@ impl SchemaConverter {
             let desc = item.get("description").and_then(|v| v.as_str());
             if let Some(val) = const_val {
                 emitter.write_alias_variant(val, desc);
+                has_variant = true;
             }
+        }
+        if !has_variant {
+            emitter.write_alias_type_variant("any", None);
         }
     }
 
@@ -208,6 +219,9 @@ impl SchemaConverter {
             let ty = self.resolve_type(walker, item);
             emitter.write_alias_type_variant(&ty, desc);
         }
+        if one_of.is_empty() {
+            emitter.write_alias_type_variant("any", None);
+        }
     }
 
     /// Emit `---@alias Name` from `anyOf`.
@@ -220,6 +234,7 @@ impl SchemaConverter {
     ) {
         if let Some(any_of) = schema.get("anyOf").and_then(|v| v.as_array()) {
             emitter.write_alias_header(name);
+            let mut has_variant = false;
             for item in any_of {
                 let desc = item.get("description").and_then(|v| v.as_str());
                 // Skip null entries (they make the whole type nullable)
@@ -228,6 +243,10 @@ impl SchemaConverter {
                 }
                 let ty = self.resolve_type(walker, item);
                 emitter.write_alias_type_variant(&ty, desc);
+                has_variant = true;
+            }
+            if !has_variant {
+                emitter.write_alias_type_variant("any", None);
             }
         }
     }
@@ -334,7 +353,7 @@ impl SchemaConverter {
             let has_null = any_of
                 .iter()
                 .any(|item| item.get("type").and_then(|v| v.as_str()) == Some("null"));
-            let mut result = types.join(" | ");
+            let mut result = join_union(&types);
             if has_null {
                 result.push('?');
             }
@@ -354,7 +373,7 @@ impl SchemaConverter {
                     }
                 })
                 .collect();
-            return types.join(" | ");
+            return join_union(&types);
         }
 
         // type field
@@ -368,7 +387,7 @@ impl SchemaConverter {
                     .map(|t| self.json_type_to_lua(t))
                     .collect();
                 let has_null = arr.iter().any(|t| t.as_str() == Some("null"));
-                let mut result = types.join(" | ");
+                let mut result = join_union(&types);
                 if has_null {
                     result.push('?');
                 }
@@ -411,7 +430,7 @@ impl SchemaConverter {
                 .filter_map(|v| v.as_str())
                 .map(quote_string)
                 .collect();
-            return variants.join(" | ");
+            return join_union(&variants);
         }
 
         // const
@@ -434,6 +453,16 @@ impl SchemaConverter {
             "array" => "any[]".to_string(),
             _ => "any".to_string(),
         }
+    }
+}
+
+/// Join the members of a union type. A union without members (`"type": []`, an empty
+/// `oneOf`/`anyOf`, an `enum` without string values) places no constraint: it is `any`.
+fn join_union(types: &[String]) -> String {
+    if types.is_empty() {
+        "any".to_string()
+    } else {
+        types.join(" | ")
     }
 }
 
